@@ -19,6 +19,8 @@ Fixpoint spec_run (o : oracle) (h w : nat) (scr : screen) (drawn : grid cell)
          | Draw g => spec_run o h w scr' g ops' impl'
          | Frame => same_display scr' (show o h w drawn)
                     && spec_run o h w scr' (gmake h w cell_default) ops' impl'
+         | Clear => spec_run o h w scr' drawn ops' impl'
+             (* clear() forces the next frame to repaint; what the application drew stays drawn *)
          | _ => spec_run o h w scr' (gmake h w cell_default) ops' impl'
          end
   | _, _ => false
